@@ -47,6 +47,11 @@ pub fn available() -> Result<(), String> {
     }
 }
 
+/// system time in ns (the sandbox kernel's TAI offset is 0, so this is also what the daemon's clock reads)
+pub fn now_ns() -> u128 {
+    std::time::SystemTime::now().duration_since(std::time::UNIX_EPOCH).unwrap_or_default().as_nanos()
+}
+
 // ---------------------------------------------------------------- packet socket
 
 pub struct PSock {
@@ -206,8 +211,49 @@ pub struct SeenAnnounce {
     pub msg: RMsg,
 }
 
+/// configuration of one worker's daemon
+#[derive(Clone, Copy, Debug)]
+pub struct Variant {
+    pub path_trace: bool,
+    pub udp: bool,
+    /// the parent lives on port 2's segment (the daemon's slave port is then port 2, its master port port 1)
+    pub swap: bool,
+    /// both ports use the peer-to-peer delay mechanism
+    pub p2p: bool,
+}
+
+impl Variant {
+    pub fn from_index(first: u64, prop: &str) -> Variant {
+        let alt = (first / 4) % 2 == 1;
+        Variant { path_trace: first % 2 == 1, udp: (first / 2) % 2 == 1, swap: alt && prop != "C12", p2p: alt && prop == "C12" }
+    }
+    pub fn index(&self) -> u64 {
+        self.path_trace as u64 + 2 * self.udp as u64 + 4 * (self.swap || self.p2p) as u64
+    }
+    pub fn from_render(v: &Value, prop: &str) -> Variant {
+        let alt = v["variant_alt"].as_bool().unwrap_or(false);
+        Variant { path_trace: v["path_trace"].as_bool().unwrap_or(false), udp: v["transport"].as_str() == Some("udp-ipv4"), swap: alt && prop != "C12", p2p: alt && prop == "C12" }
+    }
+}
+
 pub struct World {
     pub dir: PathBuf,
+    pub variant: Variant,
+    /// index (0/1) of the daemon port on the parent's segment, i.e. the one that becomes slave
+    pub slave_idx: usize,
+    /// the harness also plays the master's part of the timing exchange (two-step Sync, Delay_Resp), emulating
+    /// a symmetric link of `link_delay_ns`
+    pub emulate_master: bool,
+    pub link_delay_ns: u64,
+    sync_seq: u16,
+    pub delay_resps_sent: u64,
+    /// poll the observation socket this often from the event loop and apply `obs_invariants` (problems collected)
+    pub poll_obs_ms: Option<u64>,
+    next_poll: Instant,
+    pub obs_polls: u64,
+    pub obs_problems: Vec<String>,
+    /// the parent's Announces are `versioned_ann`s (enables the cross-data-set version test of `obs_invariants`)
+    pub versioned: bool,
     daemon: Child,
     a1: PSock,
     b1: PSock,
@@ -252,25 +298,40 @@ impl World {
         Ok(())
     }
 
-    pub fn start(path_trace: bool, udp: bool) -> Result<World, String> {
+    pub fn start(variant: Variant) -> Result<World, String> {
+        let (path_trace, udp) = (variant.path_trace, variant.udp);
         static GEN: std::sync::atomic::AtomicU64 = std::sync::atomic::AtomicU64::new(0);
         let dir = std::env::temp_dir().join(format!("vcheck-e2e-{}-{}", std::process::id(), GEN.fetch_add(1, std::sync::atomic::Ordering::Relaxed)));
         std::fs::create_dir_all(&dir).map_err(|e| e.to_string())?;
         let cfg = format!(
-            "loglevel = \"{ll}\"\nsdo-id = 0\ndomain = 0\npriority1 = 128\nidentity = \"001b19aa00010000\"\nvirtual-system-clock = true\npath-trace = {}\n\n[[port]]\ninterface = \"a0\"\nnetwork-mode = \"{nm}\"\nhardware-clock = \"none\"\nannounce-interval = {l}\nsync-interval = {l}\ndelay-interval = -2\n\n[[port]]\ninterface = \"b0\"\nnetwork-mode = \"{nm}\"\nhardware-clock = \"none\"\nannounce-interval = {l}\nsync-interval = {l}\ndelay-interval = -2\n\n[observability]\nobservation-path = \"{}\"\n",
+            "loglevel = \"{ll}\"\nsdo-id = 0\ndomain = 0\npriority1 = 128\nidentity = \"001b19aa00010000\"\nvirtual-system-clock = true\npath-trace = {}\n\n[[port]]\ninterface = \"a0\"\nnetwork-mode = \"{nm}\"\nhardware-clock = \"none\"\nannounce-interval = {l}\nsync-interval = {l}\ndelay-interval = -2\ndelay-mechanism = \"{dm}\"\n\n[[port]]\ninterface = \"b0\"\nnetwork-mode = \"{nm}\"\nhardware-clock = \"none\"\nannounce-interval = {l}\nsync-interval = {l}\ndelay-interval = -2\ndelay-mechanism = \"{dm}\"\n\n[observability]\nobservation-path = \"{}\"\n",
             path_trace,
             dir.join("obs.sock").display(),
             l = ANN_LOG,
-            ll = std::env::var("VERIF_E2E_LOGLEVEL").unwrap_or_else(|_| "warn".into()),
-            nm = if udp { "ipv4" } else { "ethernet" }
+            ll = std::env::var("VERIF_E2E_LOGLEVEL").unwrap_or_else(|_| "info".into()),
+            nm = if udp { "ipv4" } else { "ethernet" },
+            dm = if variant.p2p { "P2P" } else { "E2E" }
         );
         std::fs::write(dir.join("statime.toml"), cfg).map_err(|e| e.to_string())?;
         let log = std::fs::File::create(dir.join("daemon.log")).map_err(|e| e.to_string())?;
         let daemon = Command::new(daemon_binary()).arg("-c").arg(dir.join("statime.toml")).stdin(Stdio::null()).stdout(log.try_clone().map_err(|e| e.to_string())?).stderr(log).spawn().map_err(|e| format!("spawn daemon: {}", e))?;
-        let a1 = PSock::open("a1", udp)?;
-        let b1 = PSock::open("b1", udp)?;
+        // "a" is the parent's segment, "b" the other one
+        let (ifa, ifb) = if variant.swap { ("b1", "a1") } else { ("a1", "b1") };
+        let a1 = PSock::open(ifa, udp)?;
+        let b1 = PSock::open(ifb, udp)?;
         let mut w = World {
             dir,
+            variant,
+            slave_idx: if variant.swap { 1 } else { 0 },
+            emulate_master: false,
+            link_delay_ns: 100_000,
+            sync_seq: 0,
+            delay_resps_sent: 0,
+            poll_obs_ms: None,
+            next_poll: Instant::now(),
+            obs_polls: 0,
+            obs_problems: vec![],
+            versioned: false,
             daemon,
             a1,
             b1,
@@ -359,6 +420,13 @@ impl World {
                 }
                 if m.header.msg_type == T_DELAY_REQ && m.header.source.clock == self.own_identity {
                     self.seen_a_delay_req.push(m.header.seq);
+                    if self.emulate_master {
+                        // as if it had arrived one link delay from now
+                        let t4 = now_ns() + self.link_delay_ns as u128;
+                        let r = RMsg::new(T_DELAY_RESP, PARENT, m.header.seq, RBody::DelayResp { receive: RTs::from_ns(t4), requesting: m.header.source });
+                        self.a1.send(&r.encode());
+                        self.delay_resps_sent += 1;
+                    }
                 }
             }
         }
@@ -366,13 +434,41 @@ impl World {
 
     /// run the event loop until `deadline`: the parent keeps announcing (plan entries first, then plain
     /// Announces every announce interval), frames from the daemon are collected
+    /// one poll of the observation socket with the consistency invariants
+    pub fn poll_observation(&mut self) {
+        self.obs_polls += 1;
+        match self.observe() {
+            None => {
+                if self.alive() {
+                    self.obs_problems.push("observation socket did not deliver a parsable state".into());
+                }
+            }
+            Some(st) => {
+                if let Some(p) = obs_invariants(&st, self.own_identity, self.versioned) {
+                    if self.obs_problems.len() < 8 {
+                        self.obs_problems.push(p);
+                    }
+                }
+            }
+        }
+    }
+
     pub fn run_until(&mut self, deadline: Instant) {
         loop {
             self.drain();
             let now = Instant::now();
+            if let Some(ms) = self.poll_obs_ms {
+                if now >= self.next_poll {
+                    self.next_poll = now + Duration::from_millis(ms);
+                    self.poll_observation();
+                }
+            }
             if now >= self.next_parent {
                 let (tlvs, gap) = self.parent_plan.pop_front().unwrap_or((vec![], ANN_MS));
                 self.parent_announce(tlvs);
+                if self.emulate_master {
+                    self.emulate_sync();
+                }
                 self.next_parent = now + Duration::from_millis(gap);
                 continue;
             }
@@ -409,14 +505,63 @@ impl World {
         serde_json::from_slice(&v).ok()
     }
 
-    /// (state of port 1, state of port 2) as rendered by Debug
+    /// (state of the port on the parent's segment, state of the other port) as rendered by Debug
     pub fn port_states(&self) -> Option<(String, String)> {
         let o = self.observe()?;
         let p = &o.instance.port_ds;
         if p.len() != 2 {
             return None;
         }
-        Some((format!("{:?}", p[0].port_state), format!("{:?}", p[1].port_state)))
+        Some((format!("{:?}", p[self.slave_idx].port_state), format!("{:?}", p[1 - self.slave_idx].port_state)))
+    }
+
+    /// mean-delay values (ns) of the filter-state lines the daemon logged after byte offset `mark` of its log
+    pub fn logged_delays_since(&self, mark: u64) -> Vec<f64> {
+        use std::io::{Seek, SeekFrom};
+        let mut v = vec![];
+        let Ok(mut f) = std::fs::File::open(self.dir.join("daemon.log")) else { return v };
+        if f.seek(SeekFrom::Start(mark)).is_err() {
+            return v;
+        }
+        let mut s = String::new();
+        let mut bytes = vec![];
+        if f.read_to_end(&mut bytes).is_err() {
+            return v;
+        }
+        s.push_str(&String::from_utf8_lossy(&bytes));
+        for line in s.lines() {
+            let Some(p) = line.find("Estimated offset") else { continue };
+            let Some(q) = line[p..].find(", delay ") else { continue };
+            let rest = &line[p + q + 8..];
+            let num: String = rest.chars().take_while(|c| c.is_ascii_digit() || *c == '.' || *c == '-' || *c == 'e' || *c == 'E' || *c == '+').collect();
+            // the value is followed by "+-<uncertainty>": cut at the first '+' that is not part of an exponent
+            let num = match num.find("+-") {
+                Some(k) => num[..k].to_string(),
+                None => num.trim_end_matches('+').to_string(),
+            };
+            if let Ok(x) = num.parse::<f64>() {
+                v.push(x);
+            }
+        }
+        v
+    }
+
+    /// port identity of the daemon's port on the parent's segment
+    pub fn slave_port_id(&self) -> PortId {
+        PortId { clock: self.own_identity, port: self.slave_idx as u16 + 1 }
+    }
+
+    fn emulate_sync(&mut self) {
+        self.sync_seq = self.sync_seq.wrapping_add(1);
+        let mut m = RMsg::new(T_SYNC, PARENT, self.sync_seq, RBody::Sync { origin: RTs::default() });
+        m.header.set_flag(F_TWO_STEP, true);
+        m.header.log_interval = ANN_LOG;
+        // as if it had left one link delay ago
+        let t1 = now_ns().saturating_sub(self.link_delay_ns as u128);
+        self.a1.send(&m.encode());
+        let mut f = RMsg::new(T_FOLLOW_UP, PARENT, self.sync_seq, RBody::FollowUp { precise_origin: RTs::from_ns(t1) });
+        f.header.log_interval = ANN_LOG;
+        self.a1.send(&f.encode());
     }
 
     pub fn steady(&self) -> bool {
@@ -452,6 +597,53 @@ impl Drop for World {
             let _ = std::fs::remove_dir_all(&self.dir);
         }
     }
+}
+
+/// What every published observation must satisfy, whatever the daemon is doing: at most one slave port; a slave
+/// port exists exactly when the parent is a foreign port and exactly when stepsRemoved > 0; and if the parent is
+/// the harness's versioned parent (all fields of one Announce derived from one number k), all data sets show the
+/// same k.
+pub fn obs_invariants(st: &statime_linux::metrics::exporter::ObservableState, own: [u8; 8], versioned: bool) -> Option<String> {
+    let i = &st.instance;
+    let slaves = i.port_ds.iter().filter(|p| format!("{:?}", p.port_state).starts_with("Slave")).count();
+    let foreign = i.parent_ds.parent_port_identity.clock_identity.0 != own;
+    let steps = i.current_ds.steps_removed;
+    if slaves > 1 || (slaves == 1) != foreign || foreign != (steps > 0) {
+        return Some(format!("observation mixes two instants: {} slave port(s), parent {} the instance itself, stepsRemoved {} ; port states {:?}", slaves, if foreign { "is not" } else { "is" }, steps, i.port_ds.iter().map(|p| format!("{:?}", p.port_state)).collect::<Vec<_>>()));
+    }
+    if !versioned {
+        return None;
+    }
+    let p = &i.parent_ds;
+    let tp = &i.time_properties_ds;
+    // version evidence outside parentDS: utc offset k (valid) with stepsRemoved k+1 and the time source of version k
+    let ck = match tp.current_utc_offset {
+        Some(u) if (1..=120).contains(&u) && steps == u as u16 + 1 && tp.time_source.to_primitive() == 0x10 * (1 + (u as u8) % 6) => Some(u as u8),
+        _ => None,
+    };
+    let pk = if p.grandmaster_identity.0[..4] == [0x00, 0x1b, 0x19, 0xd7] { Some(p.grandmaster_identity.0[7]) } else { None };
+    if p.parent_port_identity.clock_identity.0 == PARENT.clock && pk != ck && (pk.is_some() || ck.is_some()) {
+        return Some(format!("observation mixes two updates: parentDS shows version {:?} of the parent's Announce, currentDS/timePropertiesDS version {:?}", pk, ck));
+    }
+    if p.parent_port_identity.clock_identity.0 == PARENT.clock && p.grandmaster_identity.0[..4] == [0x00, 0x1b, 0x19, 0xd7] {
+        let k = p.grandmaster_identity.0[7];
+        let ok = p.grandmaster_priority_2 == k && p.grandmaster_clock_quality.clock_class == k && p.grandmaster_clock_quality.offset_scaled_log_variance == 1000 + k as u16 && steps == k as u16 + 1 && tp.current_utc_offset == Some(k as i16) && tp.time_source.to_primitive() == 0x10 * (1 + k % 6);
+        if !ok {
+            return Some(format!("observation mixes two updates: grandmaster identity of version {}, but priority2 {} class {} variance {} stepsRemoved {} utc offset {:?} time source {:#x}", k, p.grandmaster_priority_2, p.grandmaster_clock_quality.clock_class, p.grandmaster_clock_quality.offset_scaled_log_variance, steps, tp.current_utc_offset, tp.time_source.to_primitive()));
+        }
+    }
+    None
+}
+
+/// Announce contents in which every field is a function of one version number k (1..=120)
+pub fn versioned_ann(k: u8) -> (RAnnounce, u8) {
+    let mut ann = simple_announce(PARENT.clock, 50, k, k as u16);
+    ann.gm_identity = [0x00, 0x1b, 0x19, 0xd7, 0, 0, 0, k];
+    ann.gm_priority2 = k;
+    ann.gm_variance = 1000 + k as u16;
+    ann.utc_offset = k as i16;
+    ann.time_source = 0x10 * (1 + k % 6);
+    (ann, 0x04)
 }
 
 pub fn default_parent_ann() -> RAnnounce {
@@ -712,7 +904,20 @@ pub fn case_c19(w: &mut World, exp: &RealExporter, t: &mut Tape) -> E2eOut {
     let flags1 = t.below(64) as u8;
     w.parent_ann = ann;
     w.parent_flags1 = flags1;
-    let d = Instant::now() + Duration::from_millis(4 * ANN_MS + 40);
+    // the parent's upstream path (path trace on): short, or long enough to make the observable state large
+    if w.path_trace {
+        let l = *t.pick(&[0usize, 1, 2, 3, 30, 60, 100, 119]);
+        let p: Vec<[u8; 8]> = (0..l).map(|i| [0x00, 0x1b, 0x19, 0xbb, 0, 1, (i >> 8) as u8, i as u8]).collect();
+        w.parent_path = Some(p.clone());
+        w.effective_path = p;
+    }
+    // the harness also answers the timing exchange (symmetric link of 2 ms), so that the slave port has estimates
+    w.emulate_master = !w.variant.p2p;
+    let resps0 = w.delay_resps_sent;
+    let log_mark = std::fs::metadata(w.dir.join("daemon.log")).map(|m| m.len()).unwrap_or(0);
+    w.obs_problems.clear();
+    w.poll_obs_ms = Some(20);
+    let d = Instant::now() + Duration::from_millis(if t.chance(1, 2) { 4 * ANN_MS + 40 } else { 1200 });
     w.run_until(d);
     if !w.alive() {
         out.fail("daemon exited", "");
@@ -728,7 +933,7 @@ pub fn case_c19(w: &mut World, exp: &RealExporter, t: &mut Tape) -> E2eOut {
         return E2eOut { out, inconclusive: None };
     };
     let i = &st2.instance;
-    let states = (format!("{:?}", i.port_ds.first().map(|p| p.port_state)), format!("{:?}", i.port_ds.get(1).map(|p| p.port_state)));
+    let states = (format!("{:?}", i.port_ds.get(w.slave_idx).map(|p| p.port_state)), format!("{:?}", i.port_ds.get(1 - w.slave_idx).map(|p| p.port_state)));
     if !(states.0.contains("Slave") && states.1.contains("Master")) {
         return E2eOut { out, inconclusive: Some(format!("daemon not (Slave, Master): {:?}", states)) };
     }
@@ -760,7 +965,29 @@ pub fn case_c19(w: &mut World, exp: &RealExporter, t: &mut Tape) -> E2eOut {
     chk("defaultDS.numberPorts", i.default_ds.number_ports.to_string(), "2".to_string());
     chk("defaultDS.priority1", i.default_ds.priority_1.to_string(), "128".to_string());
     chk("pathTraceDS.enable", i.path_trace_ds.enable.to_string(), w.path_trace.to_string());
+    if w.path_trace {
+        chk("pathTraceDS.list", format!("{:02x?}", i.path_trace_ds.list.iter().map(|c| c.0[6..].to_vec()).collect::<Vec<_>>()), format!("{:02x?}", w.effective_path.iter().map(|c| c[6..].to_vec()).collect::<Vec<_>>()));
+    }
     drop(chk);
+    // estimates of the slave port: the daemon logs the filter's state after every measurement ("Estimated offset
+    // ..., delay D+-..."); the mean delay only changes in a measurement, so the published currentDS.meanDelay must
+    // be one of the values logged during this case (a second, independent route out of the same daemon); the
+    // published value is quantised to 2^-32 s (0.23 ns) by Duration::from_seconds
+    if w.emulate_master && w.delay_resps_sent >= resps0 + 2 {
+        let logged = w.logged_delays_since(log_mark);
+        if logged.len() >= 2 {
+            let md = crate::host::dbits(i.current_ds.mean_delay) as f64 / 4294967296.0;
+            // the observation is that of the last BMCA (<= one announce interval old): one of the latest few lines
+            if !logged.iter().rev().take(8).any(|d| (d - md).abs() <= 0.3 + 1e-9 * d.abs()) {
+                diffs.push(format!("currentDS.meanDelay: observed {} ns, but the slave port's filter (port {}) logged {:?} as its latest estimates", md, w.slave_idx + 1, logged.iter().rev().take(4).collect::<Vec<_>>()));
+            }
+            out.label("daemon:with-delay-estimates");
+        }
+    }
+    w.poll_obs_ms = None;
+    if let Some(p) = w.obs_problems.first() {
+        diffs.push(format!("{} ({} polls)", p, w.obs_polls));
+    }
     if !diffs.is_empty() {
         out.fail("daemon: observed data sets differ from what the parent announces / the configuration", format!("{} ; {}", diffs.join(" ; "), render));
     }
@@ -786,8 +1013,7 @@ pub fn case_c19(w: &mut World, exp: &RealExporter, t: &mut Tape) -> E2eOut {
 // ---------------------------------------------------------------- C17 case (the real lock under concurrent load)
 
 fn now_tai_ns() -> u128 {
-    let d = std::time::SystemTime::now().duration_since(std::time::UNIX_EPOCH).unwrap_or_default();
-    d.as_nanos() + 37_000_000_000
+    now_ns()
 }
 
 /// One case: for 0.4-1.2 s both ports of the daemon are loaded at the same time with traffic that makes their
@@ -806,11 +1032,14 @@ pub fn case_c17(w: &mut World, t: &mut Tape) -> E2eOut {
         }
     }
     let flood_ms = t.urange(400, 1200);
+    w.obs_problems.clear();
+    w.poll_obs_ms = Some(15);
+    w.versioned = true;
     // per-iteration weights of the traffic kinds
     let wts: Vec<u64> = (0..8).map(|_| t.below(6)).collect();
     let burst = t.urange(1, 6) as usize;
     let pause_us = *t.pick(&[20u64, 50, 200, 1000, 3000]);
-    let me1 = PortId { clock: w.own_identity, port: 1 };
+    let me1 = w.slave_port_id();
     let mut sync_seq = (t.below(0x10000)) as u16;
     let mut req_seq = 0u16;
     let mut sent = [0u64; 8];
@@ -836,10 +1065,11 @@ pub fn case_c17(w: &mut World, t: &mut Tape) -> E2eOut {
             sent[kind] += 1;
             match kind {
                 0 => {
-                    // parent Announce with slightly changing contents (S1 updates under the exclusive lock)
-                    w.parent_ann.gm_priority2 = (rnd() % 200) as u8;
-                    w.parent_ann.utc_offset = (rnd() % 100) as i16;
-                    w.parent_flags1 = 0x04 | ((rnd() % 2) as u8) << 3;
+                    // parent Announce whose contents all derive from one version number (S1 updates under the
+                    // exclusive lock; any observation must show one version throughout)
+                    let (a, f) = versioned_ann(1 + (rnd() % 120) as u8);
+                    w.parent_ann = a;
+                    w.parent_flags1 = f;
                     // every other one carries a propagating TLV: port 2 then forwards while port 1 updates
                     let tl = if rnd() % 2 == 0 { vec![RTlv { typ: 0x4001, value: vec![(rnd() % 256) as u8; 8] }] } else { vec![] };
                     w.parent_announce(tl);
@@ -890,8 +1120,8 @@ pub fn case_c17(w: &mut World, t: &mut Tape) -> E2eOut {
             }
         }
         w.drain();
-        if rnd() % 256 == 0 {
-            let _ = w.observe();
+        if rnd() % 4 == 0 {
+            w.poll_observation();
             obs_polls += 1;
         }
         if pause_us > 0 {
@@ -944,6 +1174,12 @@ pub fn case_c17(w: &mut World, t: &mut Tape) -> E2eOut {
         return E2eOut { out, inconclusive: None };
     }
     let obs = w.observe();
+    w.poll_obs_ms = None;
+    w.versioned = false;
+    if let Some(p) = w.obs_problems.first() {
+        out.fail(format!("daemon: {}", p.split(':').next().unwrap_or("observation inconsistent")), format!("{} ({} polls) ; {}", p, w.obs_polls, rendered));
+        return E2eOut { out, inconclusive: None };
+    }
     if announces_after < 2 {
         out.fail("daemon: master port silent for 10 s after concurrent load on both ports (deadlock?)", format!("{} Announces in the last 1.5 s window ; {}", announces_after, rendered));
     } else if obs.is_none() {
@@ -980,13 +1216,21 @@ pub fn case_c12(w: &mut World, t: &mut Tape) -> E2eOut {
             return E2eOut { out, inconclusive: Some(format!("daemon not in (Slave, Master) before the case: {:?}", w.port_states())) };
         }
     }
+    w.obs_problems.clear();
+    w.poll_obs_ms = Some(20);
     let window_ms = t.urange(800, 2000);
     let silence_ms = if t.chance(1, 5) { t.urange(100, 300) } else { t.urange(1300, 2200) };
     let rendered = json!({"steady_window_ms": window_ms, "parent_silence_ms": silence_ms});
     out.render = rendered.clone();
-    // 1. cadence in the steady state
+    // 1. cadence in the steady state - with some TLV traffic on the slave port's segment (from the parent and from
+    //    another master), which the master port's announce path has to digest
     w.log.clear();
     let t0 = Instant::now();
+    let tl = |k: u8| vec![RTlv { typ: 0x4000 + k as u16, value: vec![k; 10] }];
+    w.other_announce(tl(1));
+    w.parent_plan.push_back((tl(2), ANN_MS));
+    w.run_until(t0 + Duration::from_millis(window_ms / 2));
+    w.other_announce(tl(3));
     w.run_until(t0 + Duration::from_millis(window_ms));
     let el = t0.elapsed().as_millis() as f64;
     let count = |w: &World, port: char, ty: u8| w.log.iter().filter(|(p, k, _)| *p == port && *k == ty).count() as f64;
@@ -1000,12 +1244,51 @@ pub fn case_c12(w: &mut World, t: &mut Tape) -> E2eOut {
     };
     rate_check("Announce of the master port", count(w, 'b', T_ANNOUNCE), ANN_MS as f64, &mut out);
     rate_check("Sync of the master port", count(w, 'b', T_SYNC), ANN_MS as f64, &mut out);
-    rate_check("Delay_Req of the slave port", count(w, 'a', T_DELAY_REQ), 250.0, &mut out);
+    if w.variant.p2p {
+        // the slave port measures the link at the configured delay interval (2^-2 s); statime arms the delay request
+        // timer only when a port becomes slave, so a master port that never was slave sends none (not asserted)
+        rate_check("Pdelay_Req of the slave port", count(w, 'a', T_PDELAY_REQ), 250.0, &mut out);
+    } else {
+        rate_check("Delay_Req of the slave port", count(w, 'a', T_DELAY_REQ), 250.0, &mut out);
+    }
     if count(w, 'a', T_ANNOUNCE) + count(w, 'a', T_SYNC) > 0.0 {
         out.fail("daemon: slave port emits master traffic", format!("{:?}", rendered));
     }
     if out.violation.is_some() || !w.alive() {
         return E2eOut { out, inconclusive: None };
+    }
+    // 1b. in a third of the cases the master port's link goes down for a while (transmit timestamps are lost,
+    //     sends fail); once it is back the port must announce and send Sync at its rates again
+    if t.chance(1, 3) {
+        let down_ms = t.urange(300, 800);
+        let ifn = if w.variant.swap { "a1" } else { "b1" };
+        let _ = sh(&format!("ip link set {} down", ifn));
+        let d = Instant::now() + Duration::from_millis(down_ms);
+        w.run_until(d);
+        let _ = sh(&format!("ip link set {} up", ifn));
+        let d = Instant::now() + Duration::from_millis(400);
+        w.run_until(d);
+        if !w.alive() {
+            // main.rs `expect`s every send; with the link down long enough the kernel answers ENOBUFS and the daemon
+            // panics. That is the host failing, not the library's timer protocol (C12's subject): recorded as an
+            // observation in DESIGN.md, counted as inconclusive here.
+            return E2eOut { out, inconclusive: Some("daemon exited while its link was down (send error, expect() in main.rs)".into()) };
+        }
+        w.log.clear();
+        let f0 = Instant::now();
+        w.run_until(f0 + Duration::from_millis(1500));
+        let el2 = f0.elapsed().as_millis() as f64;
+        for (name, ty) in [("Announce", T_ANNOUNCE), ("Sync", T_SYNC)] {
+            let got = count(w, 'b', ty);
+            let nominal = el2 / ANN_MS as f64;
+            if got < (0.6 * nominal - 1.0).floor() {
+                out.fail(format!("daemon: {} of the master port does not resume at the configured rate after its link was down", name), format!("{} in {} ms (nominal {:.1}) after {} ms link down ; {}", got, el2, nominal, down_ms, rendered));
+            }
+        }
+        out.label("daemon:link-flap");
+        if out.violation.is_some() {
+            return E2eOut { out, inconclusive: None };
+        }
     }
     // 2. silence of the parent
     w.log.clear();
@@ -1055,8 +1338,12 @@ pub fn case_c12(w: &mut World, t: &mut Tape) -> E2eOut {
     w.log.clear();
     let d = Instant::now() + Duration::from_millis(2 * 250 + 300);
     w.run_until(d);
-    if count(w, 'a', T_DELAY_REQ) < 1.0 {
-        out.fail("daemon: slave port sends no Delay_Req after becoming slave again", format!("{} ms ; {}", 2 * 250 + 300, rendered));
+    if count(w, 'a', if w.variant.p2p { T_PDELAY_REQ } else { T_DELAY_REQ }) < 1.0 {
+        out.fail("daemon: slave port sends no delay request after becoming slave again", format!("{} ms ; {}", 2 * 250 + 300, rendered));
+    }
+    w.poll_obs_ms = None;
+    if let Some(p) = w.obs_problems.first() {
+        out.fail(format!("daemon: {}", p.split(':').next().unwrap_or("observation inconsistent")), format!("{} ({} polls) ; {}", p, w.obs_polls, rendered));
     }
     out.nontrivial = Some(hash_of(&format!("{}{}", window_ms, silence_ms)));
     out.label("daemon:timers");
@@ -1073,13 +1360,13 @@ pub fn worker_main(args: &[String]) -> i32 {
     let count: u64 = args.get(3).and_then(|s| s.parse().ok()).unwrap_or(1);
     let stride: u64 = args.get(4).and_then(|s| s.parse().ok()).unwrap_or(1);
     let tape_file = args.get(5).cloned();
-    let path_trace = (first % 2) == 1;
-    let udp = (first / 2) % 2 == 1;
+    let variant = Variant::from_index(first, &prop);
+    let (path_trace, udp) = (variant.path_trace, variant.udp);
     if let Err(e) = World::setup_links() {
         println!("{}", json!({"fatal": e}));
         return 2;
     }
-    let mut w = match World::start(path_trace, udp) {
+    let mut w = match World::start(variant) {
         Ok(w) => w,
         Err(e) => {
             println!("{}", json!({"fatal": e}));
@@ -1122,6 +1409,9 @@ pub fn worker_main(args: &[String]) -> i32 {
         if let Some(o) = r.out.render.as_object_mut() {
             o.insert("path_trace".into(), json!(path_trace));
             o.insert("transport".into(), json!(if udp { "udp-ipv4" } else { "ethernet" }));
+            o.insert("variant_alt".into(), json!(variant.swap || variant.p2p));
+            o.insert("slave_port".into(), json!(w.slave_idx + 1));
+            o.insert("delay_mechanism".into(), json!(if variant.p2p { "P2P" } else { "E2E" }));
         }
         let line = json!({
             "index": idx,
@@ -1137,7 +1427,7 @@ pub fn worker_main(args: &[String]) -> i32 {
             // a wedged or dead daemon must not spoil the following cases: start a fresh one
             drop(exporter.take());
             drop(w);
-            w = match World::start(path_trace, udp) {
+            w = match World::start(variant) {
                 Ok(w) => w,
                 Err(e) => {
                     println!("{}", json!({"fatal": format!("restart: {}", e)}));
@@ -1255,10 +1545,8 @@ fn confirm(ctx: &Ctx, line: &Value) -> bool {
     let f = dir.join("case.json");
     let _ = std::fs::write(&f, json!({"tape": line["tape"], "case": line["render"]}).to_string());
     let exe = std::env::current_exe().expect("current exe");
-    let pt = line["render"]["path_trace"].as_bool().unwrap_or(false);
-    let udp = line["render"]["transport"].as_str() == Some("udp-ipv4");
-    let first = (pt as u64 + 2 * udp as u64).to_string();
-    let o = Command::new("unshare").arg("-n").arg(&exe).args(["E2E-WORKER", &ctx.prop, &ctx.seed.to_string(), &first, "3", "4", f.to_str().unwrap()]).stdin(Stdio::null()).stderr(Stdio::null()).output();
+    let first = Variant::from_render(&line["render"], &ctx.prop).index().to_string();
+    let o = Command::new("unshare").arg("-n").arg(&exe).args(["E2E-WORKER", &ctx.prop, &ctx.seed.to_string(), &first, "3", "8", f.to_str().unwrap()]).stdin(Stdio::null()).stderr(Stdio::null()).output();
     let _ = std::fs::remove_dir_all(&dir);
     let Ok(o) = o else { return true };
     String::from_utf8_lossy(&o.stdout).lines().any(|l| serde_json::from_str::<Value>(l).map(|v| v["violation"].is_object()).unwrap_or(false))
@@ -1274,8 +1562,8 @@ pub fn replay_part(ctx: &Ctx, path: &str, tries: u64) -> i32 {
     let exe = std::env::current_exe().expect("current exe");
     // same daemon configuration as in the failing run (workers with an odd first index run with path trace on)
     let case = std::fs::read_to_string(path).ok().and_then(|s| serde_json::from_str::<Value>(&s).ok()).map(|v| v["case"].clone()).unwrap_or(Value::Null);
-    let first = (case["path_trace"].as_bool().unwrap_or(false) as u64 + 2 * (case["transport"].as_str() == Some("udp-ipv4")) as u64).to_string();
-    let o = Command::new("unshare").arg("-n").arg(&exe).args(["E2E-WORKER", &ctx.prop, &ctx.seed.to_string(), &first, &tries.to_string(), "4", path]).stdin(Stdio::null()).stderr(Stdio::null()).output();
+    let first = Variant::from_render(&case, &ctx.prop).index().to_string();
+    let o = Command::new("unshare").arg("-n").arg(&exe).args(["E2E-WORKER", &ctx.prop, &ctx.seed.to_string(), &first, &tries.to_string(), "8", path]).stdin(Stdio::null()).stderr(Stdio::null()).output();
     let Ok(o) = o else {
         println!("INFRA: could not run the worker");
         return 2;
